@@ -482,6 +482,11 @@ func newBuffer(br *Reader) (*buffer, error) {
 	}
 	n, err = io.ReadFull(br.r, b.data)
 	if err != nil {
+		if err == io.EOF {
+			// The size of the record was read, so the
+			// stream cannot legitimately end here.
+			err = io.ErrUnexpectedEOF
+		}
 		return nil, err
 	}
 	if n != size {
